@@ -120,6 +120,11 @@ def Val.concat (a b : Val) : Val :=
     | some x, some y => .str (x ++ y)
     | _, _ => .null
 
+/-- `log2(x)` of the engines: an UNINTERPRETED function of the value.  The model's numbers are exact rationals and `log2` of a rational
+is in general not one, so no definition is given (`opaque`: nothing about it can be unfolded, `decide`/`rfl` cannot evaluate it).
+Theorems that mention it hold for every interpretation; all they can use is that equal arguments give equal results. -/
+opaque Val.log2 : Val → Val
+
 inductive Expr where
   | col (i : Nat)
   | lit (v : Val)
@@ -139,6 +144,8 @@ inductive Expr where
   /-- `cast(a as int)` of a boolean: TRUE ↦ 1, FALSE ↦ 0, NULL ↦ NULL (the translator admits it on booleans only; an
   integer stays as it is) -/
   | boolToInt (a : Expr)
+  /-- `log2(a)`: uninterpreted (`Val.log2`) -/
+  | log2 (a : Expr)
 deriving Repr, Inhabited
 
 def Expr.eval (row : Row) : Expr → Val
@@ -162,6 +169,7 @@ def Expr.eval (row : Row) : Expr → Val
     | .bool b => .int (if b then 1 else 0)
     | .int i => .int i
     | _ => .null
+  | .log2 a => Val.log2 (a.eval row)
 
 /-- `WHERE` / `ON` keep a row iff the predicate is TRUE. -/
 def Expr.holds (e : Expr) (row : Row) : Bool := e.eval row == .bool true
